@@ -367,3 +367,64 @@ func H_C13_struct_validate() {
 		verif.Assert(verif.And(t.Min == m, m <= 10), "C13/struct Validate passed: setting stored")
 	}
 }
+
+// ---- the merge tag: index-wise merge for the field AND for everything nested below it ----
+
+type c13Nest struct {
+	L []uint64            `config:"l"`
+	M map[string][]uint64 `config:"m"`
+}
+
+type c13MergeTag struct {
+	Merged c13Nest  `config:"merged,merge"`
+	Direct []uint64 `config:"direct,merge"`
+	Plain  c13Nest  `config:"plain"`
+	App    c13Nest  `config:"app,append"`
+}
+
+// H_C13_merge_tag: a field tagged merge (replace / append analogously) fixes the list policy for the
+// lists nested below it, whatever the global policy is; untagged fields follow the global policy.
+func H_C13_merge_tag() {
+	p := []uint64{verif.Uint64("p0"), verif.Uint64("p1"), verif.Uint64("p2")}
+	n := verif.Uint64("n")
+	mk := func() c13Nest {
+		return c13Nest{L: []uint64{p[0], p[1], p[2]}, M: map[string][]uint64{"k": {p[0], p[1]}}}
+	}
+	t := c13MergeTag{Merged: mk(), Direct: []uint64{p[0], p[1]}, Plain: mk(), App: mk()}
+	nest := map[string]interface{}{"l": []interface{}{n}, "m": map[string]interface{}{"k": []interface{}{n}}}
+	c, err := ucfg.NewFrom(map[string]interface{}{"merged": nest, "direct": []interface{}{n}, "plain": nest, "app": nest})
+	verif.Assume(err == nil)
+	pol := verif.Choice("policy", nPolicies)
+	err = c.Unpack(&t, polOpts(pol)...)
+	verif.Assert(err == nil, "C13/merge tag: unpack accepted")
+	if err != nil {
+		return
+	}
+	verif.Reach("merge tag checked")
+	eq := func(got []uint64, want ...uint64) bool {
+		if len(got) != len(want) {
+			return false
+		}
+		res := true
+		for i := range got {
+			res = verif.And(res, got[i] == want[i])
+		}
+		return res
+	}
+	byPol := func(old []uint64) []uint64 {
+		switch pol {
+		case polReplace, polArrReplace:
+			return []uint64{n}
+		case polAppend:
+			return append(append([]uint64{}, old...), n)
+		case polPrepend:
+			return append([]uint64{n}, old...)
+		}
+		return append([]uint64{n}, old[1:]...)
+	}
+	verif.Assert(eq(t.Merged.L, n, p[1], p[2]), "C13/merge tag: list nested below a merge-tagged field is merged by index/"+polName[pol])
+	verif.Assert(eq(t.Merged.M["k"], n, p[1]), "C13/merge tag: list in a map below a merge-tagged field is merged by index/"+polName[pol])
+	verif.Assert(eq(t.Direct, n, p[1]), "C13/merge tag: the tagged list itself is merged by index/"+polName[pol])
+	verif.Assert(eq(t.Plain.L, byPol([]uint64{p[0], p[1], p[2]})...), "C13/merge tag: an untagged sibling follows the global policy/"+polName[pol])
+	verif.Assert(eq(t.App.L, p[0], p[1], p[2], n), "C13/merge tag: list nested below an append-tagged field is appended/"+polName[pol])
+}
